@@ -89,6 +89,7 @@ type Op struct {
 	Strict   bool            `json:"strict"`
 	Params   SMap            `json:"params"`
 	Chain    []ChainEl       `json:"chain"`
+	Verb     string          `json:"verb"`   // handle op: call the shorthand method (get|post|delete|put|patch|any) instead of Handle
 	Parent   string          `json:"parent"` // facade op: make the object from this stored object (last chain element only)
 	Fid      string          `json:"fid"`    // facade object (created by an earlier "facade" op) this call goes through
 	Res      bool            `json:"res"`    // last chain element is a Resource
